@@ -26,6 +26,14 @@ Theorem C02_refines : forall c init steps,
 Proof. exact agree_implies_holds. Qed.
 Print Assumptions C02_refines.
 
+(* the classical form: for every history whose operations name existing caches,
+   the observations the model itself produces are accepted by the reference *)
+Theorem C02_model_satisfies_spec : forall c init ops,
+  1 <= c_max c -> all_valid c [fst (init_cache c init)] ops = true ->
+  spec_check c init (combine ops (model_run c init ops)) = true.
+Proof. exact model_satisfies_spec. Qed.
+Print Assumptions C02_model_satisfies_spec.
+
 Example C02_refines_inhabited :
   agree_check ex_cfg [] (combine ex_ops (model_run ex_cfg [] ex_ops)) = true
   /\ map o_out (model_run ex_cfg [] ex_ops)
